@@ -1,4 +1,5 @@
 """Helpers shared by the property checkers."""
+import re
 import absint as A
 import runner
 
@@ -286,3 +287,30 @@ def variant_field_bits(prog, enum_name, skip=()):
         pass
     _bitscache[key] = out
     return out
+
+
+def fmt_signature(prog, body, depth=0):
+    """(template bytes, formats through LowerHex) of the text a body produces. A body that builds fmt::Arguments is read
+    directly; one that calls `<T as ToString>::to_string` (the blanket impl writes T's Display output) or delegates to
+    `<T as Display|LowerHex|...>::fmt` of a workspace type is followed to that impl, so that `self.to_string()` in a
+    Serialize impl and `format!("{:06x}", self.0)` are told apart only by what they print."""
+    tm, lh, follow = None, False, []
+    for bb in body['blocks']:
+        t = bb['t']
+        if not (t and t['k'] == 'call' and t['callee']):
+            continue
+        c = t['callee']
+        if c.get('item') == 'new' and 'fmt::Arguments' in (c.get('name') or ''):
+            tm = const_bytes_of_operand(prog, body, t['args'][0])
+        elif c.get('item') == 'new_lower_hex':
+            lh = True
+        elif c.get('did') == 'alloc::string::ToString::to_string':
+            m = re.match(r'<(.+) as std::string::ToString>::to_string$', c.get('name') or '')
+            if m:
+                follow += [b for b in prog.bodies.values() if b['kind'] == 'fn' and b['item'] == 'fmt' and b.get('impl')
+                           and b['impl'].get('self') == m.group(1) and b['impl'].get('trait') == 'std::fmt::Display']
+        elif (c.get('did') or '').startswith('core::fmt::') and c.get('item') == 'fmt' and c.get('rdid') in prog.bodies:
+            follow.append(prog.bodies[c['rdid']])
+    if tm is None and len(follow) == 1 and depth < 3 and follow[0] is not body:
+        return fmt_signature(prog, follow[0], depth + 1)
+    return tm, lh
